@@ -947,6 +947,52 @@ fn grid() {
         for i in 0..n { x.push([i as u8; N]); }
         println!("R vec_reserve_exact_no_move es={} n={} moved={} bound=0", N, n, (x.as_ptr() as usize != p1) as usize);
     }
+    // every way of growing a vector by one element at a time reallocates logarithmically often
+    fn growth_by(how: usize, steps: usize) {
+        let bump = Bump::new();
+        let mut v: BVec<u32> = BVec::new_in(&bump);
+        let (mut moves, mut cap) = (0usize, v.capacity());
+        for i in 0..steps {
+            let x = i as u32;
+            match how {
+                0 => v.resize(v.len() + 1, x),
+                1 => v.extend(std::iter::once(x)),
+                2 => v.extend_from_slice(&[x]),
+                3 => v.extend_from_slice_copy(&[x]),
+                4 => v.insert(v.len() / 2, x),
+                5 => { let mut o = bumpalo::vec![in &bump; x]; v.append(&mut o); }
+                6 => v.extend_from_slices_copy(&[&[x]]),
+                7 => v.push(x),
+                _ => v.reserve(1),
+            }
+            if how == 8 { unsafe { v.set_len(v.len() + 1) }; }
+            if i % 3 == 0 { bump.alloc(i as u8); }
+            if v.capacity() != cap { moves += 1; cap = v.capacity(); }
+        }
+        let bound = (usize::BITS - steps.leading_zeros()) as usize + 2;
+        let name = ["resize", "extend_once", "extend_from_slice", "extend_from_slice_copy", "insert", "append", "extend_from_slices_copy", "push", "reserve_one"][how];
+        println!("R vec_growth_by_{} es=4 steps={} reallocs={} bound={}", name, steps, moves, bound);
+    }
+    for how in [0usize, 1, 2, 3, 4, 5, 6, 8] { growth_by(how, 1500); }
+    {
+        // io::Write for Vec<u8> and String::push_str / insert / extend, one unit at a time
+        use std::io::Write;
+        let bump = Bump::new();
+        let mut w: BVec<u8> = BVec::new_in(&bump);
+        let (mut moves, mut cap) = (0usize, w.capacity());
+        for i in 0..3000usize { w.write_all(&[i as u8]).unwrap(); if i % 3 == 0 { bump.alloc(i as u8); } if w.capacity() != cap { moves += 1; cap = w.capacity(); } }
+        println!("R vec_growth_by_io_write es=1 steps=3000 reallocs={} bound=14", moves);
+        for how in 0..3usize {
+            let mut st = bumpalo::collections::String::new_in(&bump);
+            let (mut moves, mut cap) = (0usize, st.capacity());
+            for i in 0..3000usize {
+                match how { 0 => st.push_str("a"), 1 => st.insert(st.len() / 2, 'a'), _ => st.extend(std::iter::once('a')) }
+                if i % 3 == 0 { bump.alloc(i as u8); }
+                if st.capacity() != cap { moves += 1; cap = st.capacity(); }
+            }
+            println!("R string_growth_by_{} es=1 steps=3000 reallocs={} bound=14", ["push_str", "insert", "extend_once"][how], moves);
+        }
+    }
     growth::<1>(3000); growth::<3>(1000); growth::<8>(1000); growth::<24>(600); growth::<100>(300);
     growth::<1024>(120); growth::<1025>(120); growth::<2048>(100); growth::<4096>(80);
     {
